@@ -268,5 +268,9 @@ def explore(run, tier):
                             # every cut position inside record k (at least one byte of it survives, never all)
                             for cut in range(1, len(good_record(k - 1, codec))):
                                 cases.append(dict(c, cut=cut))
+    # faulty records far into a file (record numbers of four digits: the report names the number as a plain number)
+    for n, k, kind in ((1000, 1000, 'badmti'), (1001, 1001, 'truncated'), (1203, 1001, 'badlen'), (1000, 999, 'oversized')):
+        for b in (0, 1):
+            cases.append({'n': n, 'k': k, 'kind': kind, 'b': b, 'codec': ['latin_1', 'cp500'][b]})
     run.exhaustive.append(f'n in {ns} x every k x 8 fault kinds x 2 formats x 2 codecs')
     run.correspond(__name__, cases, use_model=run.use_model, chunk=60)
